@@ -1,7 +1,213 @@
-from ..model import AnalysisError
+"""C16 - combiner packs exactly its recipe; splitter emits each item once, then the pallet (partial).
+
+  R1 the pallet comes from in_edges[0] and is type-checked (Pallet), ingredients are type-checked (item);
+  R2 the number of reserve_get on in-edge k >= 1 is target_quantity_of_each_item[k] (loop-bound flow);
+  R3 the drain loop consumes one token, performs one get on the edge that issued it and one add_item of that
+     item into the pallet, removes that token and its index entry, and exits only when the token list is empty;
+  R4 the splitter pops until pallet.items is empty, disposes of each popped item, and pushes the pallet itself
+     after the loop, exactly once; it emits nothing else.
+"""
+from __future__ import annotations
+
+import ast
+
+from .. import nodewalk, paths, typestate
+from ..model import AnalysisError, Project, self_attr, walk_no_nested
+from ..report import Result
+from .common import site, src
+
 PROP = 'C16'
 LEVEL = 'other'
 
 
-def run(p, tier):
-    raise AnalysisError('rule module for C16 not implemented yet (fail closed)')
+def run(p: Project, tier: str) -> Result:
+    r = Result(PROP)
+    r.explanation = ('Recipe count = reservation count = get count = add_item count (loop-bound flow + counted drain loop with its invariant), pallet '
+                     'from edge 0, splitter drains then emits the pallet last. Arrival interleavings are irrelevant to the counts by R3.')
+    r.rule('C16.R1', 'pallet taken from in_edges[0] and checked to be a Pallet; ingredients checked to be items', 1)
+    r.rule('C16.R2', 'reservations on in-edge k = target_quantity_of_each_item[k], k = 1..n-1', 1)
+    r.rule('C16.R3', 'drain loop: one token, one get on its edge, one add_item, both bookkeeping lists popped at the same index, until empty', 1)
+    r.rule('C16.R4', 'splitter: every popped item disposed once, pallet pushed exactly once after the loop, nothing else emitted', 2)
+    r.not_decided = ['relative timing of pallet and ingredient arrivals (irrelevant to the counts)']
+    ws = {w.ci.name: w for w in nodewalk.walks(p)}
+    for n in ('Combiner', 'Splitter'):
+        if n not in ws:
+            raise AnalysisError(f'anchor vanished: {n}')
+    check_combiner(ws['Combiner'], r)
+    check_splitter(ws['Splitter'], r)
+    return r
+
+
+def check_combiner(w, r):
+    fi = w.root_funcs['behaviour']
+    r.analysed_functions.add(fi.key)
+    r.paths += len(w.roots['behaviour'])
+    # ---- R2: structural loop-bound flow
+    key2 = f'{fi.key}::recipe-reservations'
+    why = recipe_shape(fi)
+    (r.ok if not why else r.fail)('C16.R2', key2, 'for k in range(1, len(in_edges)): for _ in range(recipe[k]): tokens.append(in_edges[k].reserve_get()); index.append(k)'
+                                  if not why else why, src(fi.module), fi.node.lineno)
+    # ---- R1 / R3: path based
+    bad1 = bad3 = None
+    n = 0
+    for pa in w.roots['behaviour']:
+        if pa.raises or pa.status == 'loopcut':
+            continue
+        evs = pa.events
+        gets = [e for e in evs if e.kind == 'pcall' and e.name == 'get']
+        if not gets:
+            continue
+        n += 1
+        g0 = gets[0]
+        if g0.recv_val != ('sub', ('self', 'in_edges'), ('const', 0)):
+            bad1 = (pa, f'the pallet is taken from `{g0.recv}`, not from self.in_edges[0]')
+        pallet = g0.result
+        tchk = [e for e in evs if e.kind == 'cond' and not e.d.get('synthetic') and 'flow_item_type' in e.text and 'Pallet' in e.text]
+        if not tchk or tchk[0].polarity is not False or evs.index(tchk[0]) < evs.index(g0):
+            bad1 = bad1 or (pa, 'the object taken from in_edges[0] is not checked to be a Pallet before it is used')
+        adds = [e for e in evs if e.kind == 'pcall' and e.name == 'add_item']
+        ing = gets[1:]
+        if len(adds) != len(ing):
+            bad3 = (pa, f'{len(ing)} ingredient(s) taken but {len(adds)} packed into the pallet')
+            continue
+        for g, a in zip(ing, adds):
+            if a.recv_val != pallet:
+                bad3 = (pa, f'the ingredient is packed into `{a.recv}`, which is not the pallet taken from in_edges[0]')
+            if not a.args or a.args[0] != g.result:
+                bad3 = (pa, 'the object packed is not the item just taken')
+            # the edge of the get is in_edges[index_list[token_index]], token_index = tokens.index(chosen)
+            rv = g.recv_val
+            tok = g.args[0] if g.args else None
+            okedge = rv is not None and rv[0] == 'sub' and rv[1] == ('self', 'in_edges')
+            idxv = rv[2] if okedge else None
+            # idxv is reservation_indx[token_index] -> ('sub', <locallist>, ('lindex', tokens, chosen))
+            if not (okedge and idxv is not None and idxv[0] == 'sub' and idxv[2] is not None and idxv[2][0] == 'lindex' and idxv[2][2] == tok):
+                bad3 = (pa, f'the ingredient is taken from `{g.recv}`: not the edge recorded for the chosen token (index list [tokens.index(chosen)])')
+            # item type check between get and add_item
+            seg = evs[evs.index(g):evs.index(a)]
+            if not any(e.kind == 'cond' and not e.d.get('synthetic') and 'flow_item_type' in e.text and "'item'" in e.text and e.polarity is False for e in seg):
+                bad1 = bad1 or (pa, 'an ingredient is packed without checking that it is an item (a pallet could be nested)')
+        # bookkeeping pops: per ingredient two pops with the same index value
+        pops = [e for e in evs if e.kind == 'lop' and e.op == 'pop']
+        if len(pops) != 2 * len(ing):
+            bad3 = bad3 or (pa, f'{len(pops)} removals from the token/index lists for {len(ing)} consumed token(s) (expected one from each list per token)')
+        else:
+            for k in range(0, len(pops), 2):
+                a_, b_ = pops[k], pops[k + 1]
+                if a_.list == b_.list or a_.args != b_.args:
+                    bad3 = bad3 or (pa, 'token list and index list are not popped at the same index')
+        # exit condition of the drain loop
+    wl = [x for x in walk_no_nested(fi.node) if isinstance(x, ast.While) and 'reservation' in ast.unparse(x.test)]
+    if len(wl) != 1 or ast.unparse(wl[0].test).replace(' ', '') not in ('len(reservation_tokens)>0', 'reservation_tokens', 'len(reservation_tokens)!=0'):
+        bad3 = bad3 or (w.roots['behaviour'][0], 'the drain loop does not run until the token list is empty')
+    if n == 0:
+        bad1 = (w.roots['behaviour'][0], 'no complete combiner iteration found')
+    (r.ok if not bad1 else r.fail)('C16.R1', f'{fi.key}::pallet-source-and-types', 'pallet from in_edges[0], type checks present' if not bad1 else bad1[1],
+                                   src(fi.module), fi.node.lineno, *([bad1[0].describe()] if bad1 else []))
+    (r.ok if not bad3 else r.fail)('C16.R3', f'{fi.key}::drain-loop', f'counted drain verified on {n} complete path(s)' if not bad3 else bad3[1],
+                                   src(fi.module), fi.node.lineno, *([bad3[0].describe()] if bad3 else []))
+
+
+def recipe_shape(fi):
+    outer = None
+    for n in walk_no_nested(fi.node):
+        if isinstance(n, ast.For) and isinstance(n.iter, ast.Call) and ast.unparse(n.iter.func) == 'range' and 'in_edges' in ast.unparse(n.iter):
+            outer = n
+            break
+    if outer is None:
+        return 'no loop over the ingredient in-edges'
+    it = ast.unparse(outer.iter).replace(' ', '')
+    if it != 'range(1,len(self.in_edges))':
+        return f'ingredient edges are enumerated with `{ast.unparse(outer.iter)}`, expected range(1, len(self.in_edges))'
+    k = outer.target.id
+    qty = None
+    inner = None
+    for s_ in outer.body:
+        if isinstance(s_, ast.Assign) and ast.unparse(s_.value).replace(' ', '') == f'self.target_quantity_of_each_item[{k}]':
+            qty = ast.unparse(s_.targets[0])
+        if isinstance(s_, ast.For):
+            inner = s_
+    if inner is None:
+        return 'no inner loop over the required quantity'
+    rng = ast.unparse(inner.iter).replace(' ', '')
+    if not (rng == f'range({qty})' or rng == f'range(self.target_quantity_of_each_item[{k}])'):
+        return f'the inner loop runs `{ast.unparse(inner.iter)}` times, not target_quantity_of_each_item[{k}] times'
+    body_txt = [ast.unparse(x).replace(' ', '') for x in inner.body]
+    res = [c for x in inner.body for c in ast.walk(x) if isinstance(c, ast.Call) and isinstance(c.func, ast.Attribute) and c.func.attr == 'reserve_get']
+    if len(res) != 1:
+        return f'{len(res)} reservations per unit of the recipe (expected exactly 1)'
+    recv = ast.unparse(res[0].func.value).replace(' ', '')
+    edge_alias = {ast.unparse(x.targets[0]): ast.unparse(x.value).replace(' ', '') for x in inner.body if isinstance(x, ast.Assign)}
+    if not (recv == f'self.in_edges[{k}]' or edge_alias.get(recv) == f'self.in_edges[{k}]'):
+        return f'the reservation is made on `{recv}`, not on self.in_edges[{k}]'
+    apps = [c for x in inner.body for c in ast.walk(x) if isinstance(c, ast.Call) and isinstance(c.func, ast.Attribute) and c.func.attr == 'append']
+    idx_apps = [c for c in apps if c.args and ast.unparse(c.args[0]) == k]
+    if len(apps) != 2 or len(idx_apps) != 1:
+        return 'each reservation must be recorded once in the token list and once (its edge index) in the index list'
+    return None
+
+
+def check_splitter(w, r):
+    fi = w.root_funcs['worker']
+    r.analysed_functions.add(fi.key)
+    r.paths += len(w.roots['worker'])
+    params = [a.arg for a in fi.node.args.args if a.arg != 'self']
+    pal = ('param', params[0])
+    key = f'{fi.key}::emission-order'
+    bad = None
+    n = 0
+    for pa in w.roots['worker']:
+        if pa.raises or pa.status == 'loopcut':
+            continue
+        n += 1
+        evs = pa.events
+        seq = []          # ('pop', v) / ('emit', v) / ('discard',)
+        for e in evs:
+            if e.kind == 'xcall' and e.name.endswith('.items.pop'):
+                if not e.name.startswith(params[0] + '.'):
+                    bad = (pa, f'items are popped from `{e.name[:-4]}`, not from the incoming pallet')
+                if e.args != (('const', 0),):
+                    bad = bad or (pa, f'items are popped with {e.args}: not in packing order (pop(0))')
+                seq.append(('pop', e.result))
+            elif e.kind == 'pcall' and e.name == 'put':
+                seq.append(('emit', e.args[1] if len(e.args) > 1 else None))
+            elif e.kind == 'spawn' and e.func == 'self._push_item':
+                seq.append(('emit', e.args[0] if e.args else None))
+            elif e.kind == 'setitem' and 'num_item_discarded' in e.target:
+                seq.append(('discard', None))
+        cur = None
+        done_pallet = 0
+        for kind, v in seq:
+            if kind == 'pop':
+                if cur is not None:
+                    bad = bad or (pa, 'a popped item is not disposed of before the next one is popped')
+                if done_pallet:
+                    bad = bad or (pa, 'an item is popped after the pallet itself was pushed')
+                cur = v
+            elif kind == 'emit':
+                if v == cur and cur is not None:
+                    cur = None
+                elif v == pal:
+                    if cur is not None:
+                        bad = bad or (pa, 'the pallet is pushed while a popped item is still undisposed')
+                    done_pallet += 1
+                else:
+                    bad = bad or (pa, f'something other than a popped item or the pallet is emitted ({v})')
+            elif kind == 'discard':
+                if cur is not None:
+                    cur = None
+                else:
+                    done_pallet += 1
+        if cur is not None:
+            bad = bad or (pa, 'the last popped item is never emitted')
+        if done_pallet != 1:
+            bad = bad or (pa, f'the emptied pallet is emitted {done_pallet} time(s) (expected exactly once, after the items)')
+    (r.ok if not bad else r.fail)('C16.R4', key, f'items in order, then the pallet once ({n} paths)' if not bad else bad[1],
+                                  src(fi.module), fi.node.lineno, *([bad[0].describe()] if bad else []))
+    # loop condition: until the pallet is empty
+    wl = [x for x in walk_no_nested(fi.node) if isinstance(x, ast.While) and '.items' in ast.unparse(x.test)]
+    key2 = f'{fi.key}::drains-until-empty'
+    ok = len(wl) == 1 and ast.unparse(wl[0].test).replace(' ', '') in (f'len({params[0]}.items)>0', f'{params[0]}.items', f'len({params[0]}.items)!=0')
+    # the pallet push must be after the loop (not inside it)
+    (r.ok if ok else r.fail)('C16.R4', key2, 'while len(pallet.items) > 0' if ok else 'the unpacking loop does not run until pallet.items is empty',
+                             src(fi.module), fi.node.lineno)
